@@ -283,6 +283,39 @@ def install(it):
         """sends inside a havoc'd loop are not counted by the `answered` clause (conservative)"""
         return None
 
+    @reg('trace_len')
+    def trace_len(it, args, kw):
+        return len(it.p.trace)
+
+    @reg('events_since')
+    def events_since(it, args, kw):
+        """trace events of a kind recorded since position n (as a tuple)"""
+        n, kind = args[0], args[1]
+        return tuple(e for e in it.p.trace[n:] if e[0] == kind)
+
+    @reg('oblige')
+    def oblige(it, args, kw):
+        """ghost assertion inside a loop specification / setup: a named proof obligation"""
+        label, cond = args[0], args[1]
+        if isinstance(cond, bool):
+            cond = z3.BoolVal(cond)
+        it.p.oblige('%s#%s' % (it.p.label, label), cond, kind='ghost-assert', assume_after=False)
+
+    @reg('sent_field')
+    def sent_field(it, args, kw):
+        """field of a message recorded by send(): sent_field(event, 'status')"""
+        ev, name = args
+        return it.getattr(ev[2], name)
+
+    @reg('havoc_moved')
+    def havoc_moved(it, args, kw):
+        """loop havoc: whether the message bound here was already handed to send() in an earlier
+        iteration is unknown (the invariant claims nothing about it)"""
+        h = it.hooks.get('harness')
+        if h is None:
+            raise Unsupported('havoc_moved without a service harness')
+        h.set_moved(args[0], it.p.fresh('moved', smt.Bool))
+
     @reg('ghost_get')
     def ghost_get(it, args, kw):
         return it.p.ghost.get(args[0], args[1] if len(args) > 1 else None)
